@@ -515,6 +515,23 @@ func FamClosures[T any](c Codec[T], stream bool, chunk int, seed int64, n int) S
 		rec.Calls = append(rec.Calls, SysCall{Tag: 488, From: "B", Method: "Two", Ret: v, Err: errText(err), Done: true, Extra: strings.Join(runs, "|")})
 		mu.Unlock()
 	}
+	// a function argument that cannot be a closure (no error result): the call fails, nothing stays registered
+	{
+		pctx, pcancel := context.WithTimeout(ctx, 5*time.Second)
+		err := p.ra.BadCb(pctx, 486, func(ctx context.Context, msg string) {})
+		pcancel()
+		rec.Calls = append(rec.Calls, SysCall{Tag: 486, From: "A", Method: "BadClosureArg", Err: errText(err), Done: true, Extra: fmt.Sprint(p.a.Reg.VerifClosureCount())})
+		if err != nil {
+			// fatal for the link (a panic inside the stub): relink for the rest
+			p.close()
+			p2, err2 := newPair(c, stream, chunk, seed+2)
+			if err2 != nil {
+				rec.Notes = append(rec.Notes, "relink failed: "+err2.Error())
+				return rec
+			}
+			p = p2
+		}
+	}
 	// a later argument cannot be encoded: the call fails before anything is written, and the closure that
 	// was registered for the earlier argument must be gone again
 	{
